@@ -182,6 +182,35 @@ contract('gnpy.core.elements.Edfa._nf', name='gnpy.core.elements.Edfa._nf[unknow
                  'gain_min': real(), 'gain_flatmax': real(), 'gain_target': real()},
          raises={'EquipmentConfigError': 'True'}, ensures=[], use_at_calls=False, modifies=[])
 
+# OpenROADM models: the MSA gives OSNR (0.1 nm) against the input power per 50 GHz slot; a channel in a slot of width w
+# carries 50 GHz / w of its power per 50 GHz, so P50 = Pin_total - 10 log10(nch) + 10 log10(50 GHz / w), NF = P50 - OSNR(P50) + 58
+SPEC_ORM = '''
+def P50(amp):
+    return amp.pin_db - spec_lin2db(amp.nch) + spec_lin2db(50e9 / amp.slot_width)
+def PADG(gmin, g):
+    return gmin - g if gmin > g else 0
+'''
+_NFP = {'nf_model': NF_MODEL, 'nf_fit_coeff': const(None), 'gain_min': real(), 'gain_flatmax': real(), 'gain_target': real()}
+contract('gnpy.core.elements.Edfa._nf', name='gnpy.core.elements.Edfa._nf[openroadm]', props=['C04'], spec=SPEC_ORM,
+         params={'self': EDFA(), 'type_def': const('openroadm'), **_NFP},
+         requires=[('channels', 'self.nch > 0 and self.slot_width > 0')],
+         let={'c': 'nf_model.nf_coef', 'x': 'P50(self)'},
+         ensures=[('msa_polynomial', 'result[0] == x - (((c[0] * x + c[1]) * x + c[2]) * x + c[3]) + 58 + PADG(gain_min, gain_target)')],
+         use_at_calls=False, modifies=[])
+contract('gnpy.core.elements.Edfa._nf', name='gnpy.core.elements.Edfa._nf[openroadm_preamp]', props=['C04'], spec=SPEC_ORM,
+         params={'self': EDFA(), 'type_def': const('openroadm_preamp'), **_NFP},
+         requires=[('channels', 'self.nch > 0 and self.slot_width > 0')],
+         let={'x': 'P50(self)', 'osnr': '(4 * P50(self) + 275) / 7'},
+         ensures=[('msa_preamp_mask', 'result[0] == x - (osnr if osnr <= 33 else 33) + 58 + PADG(gain_min, gain_target)')],
+         use_at_calls=False, modifies=[])
+contract('gnpy.core.elements.Edfa._nf', name='gnpy.core.elements.Edfa._nf[advanced_model]', props=['C04'], spec=SPEC_ORM,
+         params={'self': EDFA(), 'type_def': const('advanced_model'), 'nf_model': const(None), 'nf_fit_coeff': lst(real(), real(), real(), real()),
+                 'gain_min': real(), 'gain_flatmax': real(), 'gain_target': real()},
+         # polynomial in the gain reduction below maximum flat gain (after padding up to minimum gain)
+         let={'c': 'nf_fit_coeff', 'g': 'gain_target + PADG(gain_min, gain_target)', 'dg': 'gain_flatmax - g if gain_flatmax > g else 0'},
+         ensures=[('fit_polynomial', 'result[0] == (((c[0] * (-dg) + c[1]) * (-dg) + c[2]) * (-dg) + c[3]) + PADG(gain_min, gain_target)')],
+         use_at_calls=False, modifies=[])
+
 # relational laws of the min/max-NF model, on the real _nf (two runs of the real code in one harness)
 H_NF2 = '''
 def nf_two_gains(amp, nf_model, gain_min, gain_flatmax, g1, g2):
